@@ -4,6 +4,7 @@
   Part 2: the merge protocol of `AeicModel/Merge.lean` (file-system step sequence with a fault at any step).
 -/
 import AeicProofs.Lemmas.StoreMain
+import AeicProofs.Lemmas.MergeProto
 
 namespace C10
 open Aeic.Store
@@ -86,5 +87,86 @@ theorem invalid_kinds_rejected (w : World) (hw : WInv w) (s : Sess) (hs : w.sess
 example : (run World.init [.create true 1, .add ⟨0, 8, some 5, 0, true⟩, .add ⟨1, 8, none, 0, true⟩,
     .add ⟨2, 8, some 6, 1, true⟩, .add ⟨3, 8, some 7, 0, false⟩, .len, .add ⟨4, 8, some 9, 0, true⟩]) =
     [.ok, .idx 0, .err .valueError, .err .valueError, .err .valueError, .len 1, .idx 1] := by decide
+
+
+/-! ## Part 2 — merge: refused, interrupted by an exception at any step, or killed at any step -/
+open Aeic.Merge
+
+/-- a refused merge (any validation rule) leaves the file system exactly as it was, so it can be retried after
+    correcting the cause -/
+theorem refused_merge_retriable (fsys : FS) (inputs : List String) (fault : Option Nat) (r : Refusal)
+    (hv : validate fsys inputs = .error r) : (merge fsys inputs fault).1 = fsys := by
+  unfold merge; rw [hv]
+
+/-- a merge interrupted by a failure at **any** file-system step (mkdir, any of the moves, the index file, the metadata
+    file) or by the operating system refusing a step ends with the file system exactly as it was before: every trajectory
+    is readable from its original file, and the merge can be retried -/
+theorem interrupted_merge_restores (fsys : FS) (inputs : List String) (fault : Option Nat)
+    (hnot : (merge fsys inputs fault).2 ≠ .ok true) : (merge fsys inputs fault).1 = fsys := by
+  unfold merge at hnot ⊢
+  cases hv : validate fsys inputs with
+  | error r => rfl
+  | ok fs =>
+    rw [hv] at hnot
+    simp only at hnot ⊢
+    obtain ⟨hout, hall, _⟩ := validate_ok hv
+    obtain ⟨h1, _, _⟩ := run_all fsys fs fault hout hall
+    generalize runSteps fsys fault 0 (mergeSteps fs) = r at h1 hnot
+    obtain ⟨c, b⟩ := r
+    cases b with
+    | true => exact absurd rfl hnot
+    | false =>
+      simp only at h1 ⊢
+      rcases h1 with h | ⟨done, hmid⟩
+      · subst h; unfold rollback; rw [hout]
+      · exact hmid.rollback
+
+/-- if the process is killed after any number of completed steps (no clean-up runs), every input store is readable from
+    exactly one place: its original path, or the output directory -/
+theorem killed_merge_loses_nothing (fsys : FS) (inputs : List String) (fs : List (String × StoreFile)) (k : Nat)
+    (hv : validate fsys inputs = .ok fs) (n : String) (f : StoreFile) (hn : fsys.top n = some f) :
+    let cur := crashAfter fsys inputs k
+    (cur.top n = some f ∧ ∀ d, cur.out = some d → lookupFile d.files n = none) ∨
+    (cur.top n = none ∧ ∃ d, cur.out = some d ∧ lookupFile d.files n = some f) := by
+  intro cur
+  obtain ⟨hout, hall, _⟩ := validate_ok hv
+  obtain ⟨h1, _, _⟩ := run_all fsys fs (some k) hout hall
+  have hcur : cur = (runSteps fsys (some k) 0 (mergeSteps fs)).1 := by
+    show crashAfter fsys inputs k = _
+    unfold crashAfter; rw [hv]
+  rw [← hcur] at h1
+  rcases h1 with h | ⟨done, hmid⟩
+  · left; rw [h]; exact ⟨hn, by intro d hd; rw [hout] at hd; cases hd⟩
+  · obtain ⟨d, hd, hfiles⟩ := hmid.out
+    have hb := hmid.back n
+    cases hl : lookupFile done n with
+    | none =>
+      left
+      rw [hl] at hb; simp only at hb
+      refine ⟨by rw [hb]; exact hn, ?_⟩
+      intro d' hd'; rw [hd] at hd'; cases hd'; rw [hfiles]; exact hl
+    | some g =>
+      right
+      rw [hl] at hb; simp only at hb
+      have hg : g = f := by rw [hn] at hb; cases hb; rfl
+      exact ⟨hmid.gone n (by simp [hl]), d, hd, by rw [hfiles, hl, hg]⟩
+
+/-- a merged directory that announces itself as complete (its metadata file exists) — after a complete run, a fault or a
+    kill at any step — really contains all parts, in order, with the recorded counts -/
+theorem metadata_implies_complete (fsys : FS) (inputs : List String) (fs : List (String × StoreFile)) (fault : Option Nat)
+    (hv : validate fsys inputs = .ok fs) (d : MergedDir) (md : List (String × Nat))
+    (hd : (runSteps fsys fault 0 (mergeSteps fs)).1.out = some d) (hmd : d.metadata = some md) :
+    d.files = fs ∧ md = mdOf fs := by
+  obtain ⟨hout, hall, _⟩ := validate_ok hv
+  obtain ⟨_, h2, _⟩ := run_all fsys fs fault hout hall
+  exact ⟨(h2 d hd md hmd).1, (h2 d hd md hmd).2.1⟩
+
+/-- non-vacuity: a three-input merge with a fault at the second move restores everything; without fault it completes -/
+example :
+    let a : StoreFile := ⟨[], 0, false⟩
+    let top : String → Option StoreFile := fun n => if n = "a" ∨ n = "b" ∨ n = "c" then some a else none
+    (merge ⟨top, none⟩ ["a", "b", "c"] (some 2)).2 = .ok false ∧
+    (merge ⟨top, none⟩ ["a", "b", "c"] none).2 = .ok true := by
+  constructor <;> rfl
 
 end C10
